@@ -620,7 +620,7 @@ def pipe_shrinks(p):
                 yield p[:i] + [q] + p[i + 1:]
         # lower numeric parameters
         for i, a in enumerate(p[2]):
-            if isinstance(a, int) and a > 0:
+            if isinstance(a, int) and a > (1 if p[1] in ("group_by", "buffer_with_count", "window_with_count") else 0):
                 yield p[:2] + [p[2][:i] + [a - 1] + p[2][i + 1:]] + p[3:]
     elif p[0] == "defer":
         yield p[1]
